@@ -12,7 +12,7 @@
     right fields to the builders (decided each run by the correspondence and an independent
     encoder, see DESIGN.md). *)
 From DV Require Import Model.Base Model.Parser Model.Header Model.Readers Model.Uncompress Model.Mutate
-  Model.Gen Model.Text Spec.NameSpec Proofs.Hoare Proofs.SynthTotal Proofs.NameText Proofs.SynthShape.
+  Model.Gen Model.Text Spec.NameSpec Proofs.Hoare Proofs.SynthTotal Proofs.NameText Proofs.SynthShape Model.NameCheck Spec.PacketSpec Spec.RecordSpec Spec.PlainSpec Proofs.ReadersLabels Proofs.InsertSpec Proofs.BuiltRecord.
 
 Theorem C13_synth_total : forall s : bytes, nopanic (rr_from_string s).
 Proof. exact synth_total. Qed.
@@ -57,4 +57,53 @@ Example C13_sample_a :
 Proof. vm_compute. reflexivity. Qed.
 Example C13_sample_odd_hex :
   rr_from_string [97;32;49;32;73;78;32;68;83;32;49;32;50;32;51;32;97;98;99]%N = Err ParseError.
+Proof. vm_compute. reflexivity. Qed.
+
+(** the insertion clause ("inserting it into the answer, authority or additional section of a valid packet leaves a packet the parser
+    accepts"), for the records whose data holds no names - A with 4 bytes, AAAA with 16, TXT, DS, any type other than NS / CNAME / PTR /
+    MX / SOA / DNAME / OPT (Proofs/BuiltRecord.v): what RR::new returns for an accepted owner text is the pointer-free encoding of a
+    record that is well-formed in every context - owner labels = the labels of the text, each a label of the parser's policy (true
+    since the repair a97c4c2), the type, class and TTL given, data length = length of the data - i.e. a record the insertion theorems
+    of C09 take ([plain_rr_ok]); and for every accepted packet a successful insert_rr of it leaves accepted bytes with the view of
+    their parse.  The name-bearing types (NS, CNAME, PTR, MX, SOA) are decided by the correspondence + independent encoder. *)
+Theorem C13_built_record_is_insertable : forall name ttl cls t rd rr,
+  rr_new name ttl cls t rd = Ok rr -> bytes_ok rd -> (t < 65536)%N -> (cls < 65536)%N -> (ttl < 4294967296)%N -> raw_type t ->
+  (t = TYPE_A -> length rd = 4) -> (t = TYPE_AAAA -> length rd = 16) ->
+  exists ls, Forall label_ok ls /\ (name = dotted ls \/ name = dots ls \/ (name = [46%N] /\ ls = [])) /\
+    rr = plain_record (raw_rec ls t cls ttl rd) /\ plain_rr_ok (raw_rec ls t cls ttl rd).
+Proof. exact rr_new_is_plain_record. Qed.
+Print Assumptions C13_built_record_is_insertable.
+
+Theorem C13_built_record_inserts : forall name ttl t rd rr p v it sec s',
+  rr_new name ttl CLASS_IN t rd = Ok rr -> bytes_ok rd -> (t < 65536)%N -> (ttl < 4294967296)%N -> raw_type t ->
+  (t = TYPE_A -> length rd = 4) -> (t = TYPE_AAAA -> length rd = 16) ->
+  bytes_ok p -> parse p = Ok v -> sec = SAnswer \/ sec = SNameServers \/ sec = SAdditional ->
+  (sec <> SAdditional -> exists w, u16_at p 2 w /\ N.land w 32768 = 32768%N) ->
+  m_insert_rr sec rr (v, it) = (s', Ok tt) ->
+  exists f, bytes_ok (pp_packet (fst s')) /\ wf_packet (pp_packet (fst s')) /\ parse (pp_packet (fst s')) = Ok f /\
+    pp_offset_question (fst s') = pp_offset_question f /\ pp_offset_answers (fst s') = pp_offset_answers f /\
+    pp_offset_nameservers (fst s') = pp_offset_nameservers f /\ pp_offset_additional (fst s') = pp_offset_additional f /\
+    pp_offset_edns (fst s') = pp_offset_edns f /\ pp_edns_count (fst s') = pp_edns_count f /\
+    pp_maybe_compressed (fst s') = false /\ pp_cached (fst s') = None.
+Proof. exact built_record_inserts. Qed.
+Print Assumptions C13_built_record_inserts.
+
+Example C13_raw_types : raw_type TYPE_A /\ raw_type TYPE_AAAA /\ raw_type TYPE_TXT /\ raw_type TYPE_DS /\ ~ raw_type TYPE_NS /\ ~ raw_type TYPE_MX.
+Proof.
+  unfold raw_type. repeat split; try (vm_compute; congruence); try reflexivity.
+  - intros (H & _). vm_compute in H. discriminate.
+  - intros (_ & H & _). apply H. reflexivity.
+Qed.
+
+Example C13_raw_rec_means : forall ls t c ttl b,
+  plain_record (raw_rec ls t c ttl b) = wire_of_labels ls ++ be16_bytes t ++ be16_bytes c ++ be32_bytes ttl ++ be16_bytes (N.of_nat (length b)) ++ b.
+Proof. reflexivity. Qed.
+
+(** such an insertion runs: an A record built from text and data, inserted into a small response *)
+Example C13_built_record_insert_runs :
+  match rr_new [119; 46; 97]%N 60 CLASS_IN TYPE_A [10; 0; 0; 1]%N,
+        parse [0;7; 129;128; 0;1; 0;0; 0;0; 0;0;  1;97;0; 0;1; 0;1]%N with
+  | Ok rr, Ok v => let '(s, r) := m_insert_rr SAnswer rr (v, it_new SAnswer) in (pp_packet (fst s), r)
+  | _, _ => ([], Err InvalidPacket)
+  end = ([0;7; 129;128; 0;1; 0;1; 0;0; 0;0;  1;97;0; 0;1; 0;1;  1;119;1;97;0; 0;1; 0;1; 0;0;0;60; 0;4; 10;0;0;1]%N, Ok tt).
 Proof. vm_compute. reflexivity. Qed.
